@@ -142,6 +142,10 @@ var Kinds = []Kind{
 	{"embeds_nil", func() interface{} { return embedsFix{} }},
 	{"stringers", func() interface{} { return []fmt.Stringer{stringerFix{"s0"}} }},
 	{"pstrs", func() interface{} { return &[]string{"p0", "p1"} }},
+	// wrappers with an Interface() method around falsy values: the wrapper itself is a value like any other
+	{"reflect_value_empty", func() interface{} { return reflect.ValueOf("") }},
+	{"reflect_value_false", func() interface{} { return reflect.ValueOf(false) }},
+	{"nullable_nil", func() interface{} { return nullableFix{} }},
 	// what pathFor looks for: ToPath / ToParam, Slug / ID fields (also nil, also promoted from a nil pointer)
 	{"pathable", func() interface{} { return pathableFix{"/px/1"} }},
 	{"pathable_nilptr", func() interface{} { return (*pathableFix)(nil) }},
@@ -149,6 +153,11 @@ var Kinds = []Kind{
 	{"with_slug_nil", func() interface{} { return withSlug{} }},
 	{"embeds_nil_id", func() interface{} { return embedsIDFix{} }},
 }
+
+// nullableFix is shaped like the nulls.* wrappers: Interface() gives the wrapped value
+type nullableFix struct{ v interface{} }
+
+func (n nullableFix) Interface() interface{} { return n.v }
 
 type pathableFix struct{ p string }
 
